@@ -6,8 +6,10 @@ Real code: Timer.__init__/reset/_on_generate_events/expiry, generate_events.redu
 Manager._dispatcher (arming of generate_events), tick, FallBackGenerator._on_generate_events.
 """
 
+import datetime
 import os
 import sys
+import time
 
 sys.path.insert(0, os.path.dirname(os.path.dirname(os.path.abspath(__file__))))
 
@@ -34,13 +36,17 @@ ASSUMPTIONS = [
     'threading.Event.wait(t) returns after 0 <= d <= t',
     'manager marked running (as run() does) and stepped with tick(); single thread',
 ]
-OUTSIDE = ['absolute datetime deadlines (mktime/timetuple are C code; see DESIGN.md)', 'Sleep() objects (float() of the argument)',
+OUTSIDE = ['absolute datetime deadlines other than whole seconds 0/1/3 s after a fixed calendar second (mktime/timetuple are C code and run on concrete datetimes; the clock phase is symbolic)', 'Sleep() objects (float() of the argument)',
            'more timers/iterations than the bounds']
 
 
-def make_harness(n_timers, iterations, allow_ops=True, noise=True):
+# a whole second of the local calendar, as an epoch value
+BASE = int(time.mktime(datetime.datetime(2031, 3, 4, 5, 6, 7).timetuple()))
+
+
+def make_harness(n_timers, iterations, allow_ops=True, noise=True, absolute=False):
     def harness(g):
-        clock = doubles.VirtualClock(g)
+        clock = doubles.VirtualClock(g, start=BASE if absolute else 0)
         idle = doubles.IdleController(g, clock)
         doubles.install_clock(clock)
         doubles.install_event_double(idle)
@@ -89,10 +95,17 @@ def make_harness(n_timers, iterations, allow_ops=True, noise=True):
         ghost = []       # per timer: dict(I, persist, armed_at (clock of last arm) , alive, unregistered_at_iter)
         for j in range(n_timers):
             clock.advance('c%d' % j)
-            interval = g.real('I%d' % j, 0)
             persist = g.flag('persist%d' % j)
-            t = T.Timer(interval, mk_event(j)(), persist=persist)
             armed = clock.now
+            if absolute and g.flag('abs%d' % j):
+                # an absolute deadline: a whole second k seconds after BASE, while the clock stands at an arbitrary
+                # (fractional) instant >= BASE; mktime()/timetuple() run on the concrete datetime
+                k = g.pick('k%d' % j, [0, 1, 3])
+                t = T.Timer(datetime.datetime.fromtimestamp(BASE + k), mk_event(j)(), persist=persist)
+                interval = (BASE + k) - armed
+            else:
+                interval = g.real('I%d' % j, 0)
+                t = T.Timer(interval, mk_event(j)(), persist=persist)
             t.register(app)
             timers.append(t)
             ghost.append({'I': interval, 'persist': persist, 'armed': armed, 'alive': True, 'fired': [], 'unreg_iter': None})
@@ -220,6 +233,7 @@ def canaries():
         ('no-reduce-time-left', 'timers', lambda: mutate(T.Timer, '_on_generate_events', 'event.reduce_time_left(self.expiry - now)', 'pass'), ['idle-wait-unbounded-with-pending-timer', 'idle-sleep-past-expiry']),
         ('reduce-allows-increase', 'timers', lambda: mutate(EV.generate_events, 'reduce_time_left', 'self._time_left > time_left', 'self._time_left != time_left'), ['idle-sleep-past-expiry']),
         ('refire-while-unregister-pending', 'timers', lambda: mutate(T.Timer, '_on_generate_events', 'if self.unregister_pending:', 'if False:'), ['fired-after-unregister', 'one-shot-fired-twice']),
+        ('datetime-span-truncated', 'absolute-deadline', lambda: mutate(T.Timer, 'reset', 'self.interval = mktime(interval.timetuple()) - time()', 'self.interval = int(mktime(interval.timetuple()) - time())'), ['fired-early']),
         ('fallback-waits-wrong-value', 'timers', lambda: mutate(HP.FallBackGenerator, '_on_generate_events', 'self._continue.wait(event.time_left)', 'self._continue.wait(event.time_left + 1)'), ['idle-sleep-past-expiry']),
     ]
 
@@ -227,8 +241,12 @@ def canaries():
 def parts(tier):
     if tier == 'quick':
         return [Part('timers', make_harness(2, 3), bounds={'timers': 2, 'iterations': 3, 'ops': 'one reset (same or new symbolic interval) and one unregister at any iteration', 'noise': 'queued event / generator task in the first iteration'},
-                     encoded=ENC, budget_s=90)]
-    return [Part('timers', make_harness(2, 6), bounds={'timers': 2, 'iterations': 6}, encoded=ENC, budget_s=1800),
+                     encoded=ENC, budget_s=90),
+                Part('absolute-deadline', make_harness(1, 3, allow_ops=False, noise=False, absolute=True),
+                     bounds={'timers': 1, 'iterations': 3, 'deadline': 'datetime 0/1/3 whole seconds after a fixed calendar second; clock at an arbitrary real instant at or after it', 'ops': 'none'},
+                     encoded=ENC, budget_s=60)]
+    return [Part('absolute-deadline', make_harness(2, 4, noise=False, absolute=True), bounds={'timers': 2, 'iterations': 4, 'deadline': 'numeric or datetime (0/1/3 s after a fixed second)'}, encoded=ENC, budget_s=900),
+            Part('timers', make_harness(2, 6), bounds={'timers': 2, 'iterations': 6}, encoded=ENC, budget_s=1800),
             Part('three-timers', make_harness(3, 4, noise=False), bounds={'timers': 3, 'iterations': 4}, encoded=ENC, budget_s=1800)]
 
 
